@@ -200,10 +200,11 @@ HOLE_HOSTS = ['square', 'square+collinear', 'hexagon', 'diamond']
 
 def main():
     ck = Check('C01')
-    ck.build_theories(['theories/Props/C01.vo', 'theories/Corr/GeomK.vo'])
+    ck.build_theories(['theories/Props/C01.vo', 'theories/Props/C01b.vo', 'theories/Corr/GeomK.vo'])
     rep = gen_geom.main(REPO, os.path.join(ck.rundir, 'GeomGen.v'))   # the planar core regenerated from the source ...
     ck.gen('GeomGen.v', rep, 'GeomGenEq.v')                           # ... proved equal to GeomM.fli / pip / poly_contains / box_contains
     ck.props('Props/C01.v')
+    ck.props('Props/C01b.v')     # even-odd interior = geometric interior for rectangles, triangles and all strictly convex rings
     rng = ck.rng
     thorough = ck.tier == 'thorough'
     cases, meta = [], []
